@@ -35,12 +35,21 @@ def emit_cases(scratch):
     return cases, r, (stats[0] if stats else '')
 
 
-def judge(obs, listings, scratch, par=harness.NPROC, prop='C07'):
+def judge(obs, listings, scratch, par=harness.NPROC, prop='C07', candidates=False):
     """C07_Distinct compares every case with all earlier ones of the same batch, so every batch gets *all* observations
     of the job (a prefix); batches differ in the range of cases whose verdict they report."""
     lf = scratch / 'listings.ndjson'
     tlc.dump_ndjson(lf, listings or [{'id': 'none', 'listing_foreign': 0, 'listing_dups': 0, 'listing_error': ''}])
     f = scratch / 'obs_all.ndjson'
+    if candidates:
+        # quick tier: the pairwise comparison of cache keys is restricted to the pairs that have the same key string (a
+        # grouping by equality of a recorded field, done here; TLC re-checks that the listed pairs do have equal keys and
+        # judges them).  The thorough tier lets TLC compare every pair.
+        groups = {}
+        for i, o in enumerate(obs, 1):
+            if o.get('accepted') and o.get('key'):
+                groups.setdefault(o['key'], []).append(i)
+        obs = [dict(o, same_key=[j for j in groups.get(o.get('key'), []) if j < i]) for i, o in enumerate(obs, 1)]
     tlc.dump_ndjson(f, obs)
     r = tlc.run_tlc('TaskValuesObs', 'TaskValuesObs.cfg', scratch=scratch, workers=1, heap='6g',
                     env={'LV_OBS': str(f), 'LV_LISTINGS': str(lf), 'LV_PROP': prop}, tag='tvobs', timeout=3000)
@@ -64,7 +73,7 @@ def run(prop: str, tier: str) -> int:
         hashseeds = [7] if tier == 'quick' else [7, 1, 123, 4242]
         # one job = one shared storage; every job sees the whole grammar in a different order
         orders = 1 if tier == 'quick' else 3
-        parts = 4           # each part has its own shared storage; all parts of one order are judged together
+        parts = 8           # each part has its own shared storage; all parts of one order are judged together
         jobs = []
         for k in range(orders):
             cs = list(cases)
@@ -84,7 +93,7 @@ def run(prop: str, tier: str) -> int:
                 for kk in ('listing_error', 'listing_foreign', 'listing_dups'):
                     if r.get(kk):
                         m[kk] = r[kk]
-            verdicts, vr = judge(obs, list(merged.values()), scratch, prop=prop)
+            verdicts, vr = judge(obs, list(merged.values()), scratch, prop=prop, candidates=(tier == 'quick'))
             total += len(obs)
             for o in obs + list(merged.values()):
                 fails = verdicts.get(o['id'], [])
